@@ -234,10 +234,12 @@ package server
 //@ assigns list.elements, comp:E|Str, alloc
 //@ ensures {C18} result == len(list.elements) && len(list.elements) == old(len(list.elements)) + len(elems)
 //@ ensures {C18} forall i int :: 0 <= i && i < len(elems) ==> list.elements[i] == elems[len(elems) - 1 - i]
+//@ ensures {C18} forall j int :: 0 <= j && j < len(elems) ==> elems[j] == old(elems[j])
 //@ ensures {C18} forall i int :: 0 <= i && i < old(len(list.elements)) ==> list.elements[len(elems) + i] == old(list.elements[i])
 //@ loop 0
 //@   invariant -1 <= rangeindex && rangeindex < len(elems) && len(list.elements) == old(len(list.elements)) + rangeindex + 1
 //@   invariant forall i int :: 0 <= i && i <= rangeindex ==> list.elements[i] == elems[rangeindex - i]
+//@   invariant forall j int :: 0 <= j && j < len(elems) ==> elems[j] == old(elems[j])
 //@   invariant forall i int :: 0 <= i && i < old(len(list.elements)) ==> list.elements[rangeindex + 1 + i] == old(list.elements[i])
 //@   invariant rangeindex >= 0 ==> fresh(list.elements)
 //@   decreases len(elems) - rangeindex
@@ -282,3 +284,119 @@ package server
 //@   invariant (start <= stop ==> n <= stop + 1 && len(elems) == n - start) && (start > stop ==> len(elems) == 0) && fresh(elems)
 //@   invariant forall i int :: 0 <= i && i < len(elems) ==> elems[i] == list.elements[start + i]
 //@   decreases stop - n + 1
+
+// ---------------------------------------------------------------- database.go / list.go handlers
+
+//@ spec func kIsList(s ref, id int, k string) bool = kHas(s, id, k) && typeis(kData(s, id, k), "*server.List")
+//@ spec func kList(s ref, id int, k string) ref = unbox(kData(s, id, k), "*server.List")
+
+//@ func (*Database).GetListRecord
+//@ requires {C18} dbOK(db)
+//@ assigns sm_dom[&db.Records.Map], sm_val[&db.Records.Map]
+//@ ensures {C18} dbOK(db)
+//@ ensures {C18} err == nil <==> (!old(isRec(db.Records, key)) || typeis(old(recOf(db.Records, key)).Data, "*server.List"))
+//@ ensures {C18} err == nil ==> result1 != nil
+//@ ensures {C18} err == nil ==> isRec(db.Records, key)
+//@ ensures {C18} err == nil ==> recOf(db.Records, key) == result0
+//@ ensures {C18} err == nil ==> typeis(result0.Data, "*server.List") && unbox(result0.Data, "*server.List") == result1
+//@ ensures {C18} err == nil && old(isRec(db.Records, key)) ==> result0 == old(recOf(db.Records, key))
+//@ ensures {C18} err == nil && !old(isRec(db.Records, key)) ==> fresh(result1) && len(result1.elements) == 0
+//@ ensures {C18} err != nil ==> result0 == nil && result1 == nil
+//@ ensures {C18} forall q iface :: q != iface(key) || old(isRec(db.Records, key)) ==> sm_dom[&db.Records.Map][q] == old(sm_dom[&db.Records.Map][q]) && sm_val[&db.Records.Map][q] == old(sm_val[&db.Records.Map][q])
+
+//@ func (*Database).FindListRecord
+//@ requires {C18} dbOK(db)
+//@ assigns nothing
+//@ ensures {C18} err == nil <==> (!isRec(db.Records, key) || typeis(recOf(db.Records, key).Data, "*server.List"))
+//@ ensures {C18} err == nil && isRec(db.Records, key) ==> result1 != nil && result0 == recOf(db.Records, key) && unbox(result0.Data, "*server.List") == result1
+//@ ensures {C18} !isRec(db.Records, key) || err != nil ==> result0 == nil && result1 == nil
+
+//@ func (*Server).LLen
+//@ requires {C18} storeOK(server) && conn != nil
+//@ assigns sm_dom[&server.Databases.Map], sm_val[&server.Databases.Map]
+//@ ensures {C18} storeOK(server)
+//@ ensures {C18} old(kIsList(server, conn.id, key)) ==> err == nil && intReply(result0, old(len(kList(server, conn.id, key).elements)))
+//@ ensures {C18} !old(kHas(server, conn.id, key)) ==> err == nil && intReply(result0, 0)
+//@ ensures {C18} old(hasDB(server, conn.id)) ==> forall q iface :: sm_dom[&recs(server, conn.id).Map][q] == old(sm_dom[&recs(server, conn.id).Map][q]) && sm_val[&recs(server, conn.id).Map][q] == old(sm_val[&recs(server, conn.id).Map][q])
+//@ ensures {C18} !old(hasDB(server, conn.id)) ==> forall q iface :: !sm_dom[&recs(server, conn.id).Map][q]
+
+//@ func (*Server).LIndex
+//@ requires {C18} storeOK(server) && conn != nil
+//@ assigns sm_dom[&server.Databases.Map], sm_val[&server.Databases.Map]
+//@ ensures {C18} storeOK(server)
+//@ ensures {C18} old(kIsList(server, conn.id, key)) && 0 <= idx && idx < old(len(kList(server, conn.id, key).elements)) ==> err == nil && bulkReply(result0, old(kList(server, conn.id, key).elements[idx]))
+//@ ensures {C18} old(kIsList(server, conn.id, key)) && idx < 0 && -old(len(kList(server, conn.id, key).elements)) <= idx ==> err == nil && bulkReply(result0, old(kList(server, conn.id, key).elements[len(kList(server, conn.id, key).elements) + idx]))
+//@ ensures {C18} old(kIsList(server, conn.id, key)) && (idx >= old(len(kList(server, conn.id, key).elements)) || idx < -old(len(kList(server, conn.id, key).elements))) ==> err == nil && nilReply(result0)
+//@ ensures {C18} !old(kHas(server, conn.id, key)) ==> err == nil && nilReply(result0)
+//@ ensures {C18} old(hasDB(server, conn.id)) ==> forall q iface :: sm_dom[&recs(server, conn.id).Map][q] == old(sm_dom[&recs(server, conn.id).Map][q]) && sm_val[&recs(server, conn.id).Map][q] == old(sm_val[&recs(server, conn.id).Map][q])
+//@ ensures {C18} !old(hasDB(server, conn.id)) ==> forall q iface :: !sm_dom[&recs(server, conn.id).Map][q]
+
+//@ spec func listReply(m ref, l ref, lo int, n int) bool = m != nil && m.Type == proto.ArrayMessage && m.array != nil && len(m.array.msgs) == n && (forall j int :: 0 <= j && j < n ==> m.array.msgs[j] != nil && m.array.msgs[j].Type == proto.BulkMessage && m.array.msgs[j].bytes != nil && string(m.array.msgs[j].bytes) == l.elements[lo + j])
+
+//@ func (*Server).LRange
+//@ requires {C18} storeOK(server) && conn != nil
+//@ assigns sm_dom[&server.Databases.Map], sm_val[&server.Databases.Map]
+//@ ensures {C18} storeOK(server)
+//@ ensures {C18} !old(kHas(server, conn.id, key)) ==> err == nil && result0 != nil && result0.Type == proto.ArrayMessage && result0.array != nil && len(result0.array.msgs) == 0
+//@ ensures {C18} old(kIsList(server, conn.id, key)) && rangeLo(old(len(kList(server, conn.id, key).elements)), start) > rangeHi(old(len(kList(server, conn.id, key).elements)), stop) ==> err == nil && result0 != nil && result0.array != nil && len(result0.array.msgs) == 0
+//@ ensures {C18} old(kIsList(server, conn.id, key)) && rangeLo(old(len(kList(server, conn.id, key).elements)), start) <= rangeHi(old(len(kList(server, conn.id, key).elements)), stop) ==> err == nil && listReply(result0, old(kList(server, conn.id, key)), rangeLo(old(len(kList(server, conn.id, key).elements)), start), rangeHi(old(len(kList(server, conn.id, key).elements)), stop) - rangeLo(old(len(kList(server, conn.id, key).elements)), start) + 1)
+//@ ensures {C18} old(hasDB(server, conn.id)) ==> forall q iface :: sm_dom[&recs(server, conn.id).Map][q] == old(sm_dom[&recs(server, conn.id).Map][q]) && sm_val[&recs(server, conn.id).Map][q] == old(sm_val[&recs(server, conn.id).Map][q])
+//@ loop 0
+//@   invariant array != nil && arrayMsg != nil && arrayMsg.array == array && arrayMsg.Type == proto.ArrayMessage && fresh(array) && fresh(arrayMsg) && fresh(array.msgs) && allocated(array.msgs)
+//@   invariant -1 <= rangeindex && rangeindex < len(elems) && len(array.msgs) == rangeindex + 1
+//@   invariant forall j int :: 0 <= j && j <= rangeindex ==> array.msgs[j] != nil && fresh(array.msgs[j]) && array.msgs[j].Type == proto.BulkMessage && array.msgs[j].bytes != nil && string(array.msgs[j].bytes) == elems[j]
+//@   decreases len(elems) - rangeindex
+
+//@ spec func popN(count int, n int) int = (count < n ? count : n)
+
+//@ func (*Server).pop
+//@ requires {C18} storeOK(server) && conn != nil
+//@ assigns sm_dom[&server.Databases.Map], sm_val[&server.Databases.Map], sm_dom[&recs(server, conn.id).Map], List.elements
+//@ ensures {C18} storeOK(server)
+//@ ensures {C18} !old(kHas(server, conn.id, key)) ==> err == nil && nilReply(result0) && !kHas(server, conn.id, key)
+//@ ensures {C18} old(kIsList(server, conn.id, key)) ==> err == nil
+//@ ensures {C18} old(kIsList(server, conn.id, key)) && count >= 1 && old(len(kList(server, conn.id, key).elements)) > count ==> kIsList(server, conn.id, key) && kList(server, conn.id, key) == old(kList(server, conn.id, key)) && len(kList(server, conn.id, key).elements) == old(len(kList(server, conn.id, key).elements)) - count
+//@ ensures {C18} old(kIsList(server, conn.id, key)) && count >= 1 && old(len(kList(server, conn.id, key).elements)) <= count ==> !kHas(server, conn.id, key)
+//@ ensures {C18} old(kIsList(server, conn.id, key)) && count >= 1 && old(len(kList(server, conn.id, key).elements)) > count && isLPop ==> forall i int :: 0 <= i && i < len(kList(server, conn.id, key).elements) ==> kList(server, conn.id, key).elements[i] == old(kList(server, conn.id, key).elements[i + count])
+//@ ensures {C18} old(kIsList(server, conn.id, key)) && count >= 1 && old(len(kList(server, conn.id, key).elements)) > count && !isLPop ==> forall i int :: 0 <= i && i < len(kList(server, conn.id, key).elements) ==> kList(server, conn.id, key).elements[i] == old(kList(server, conn.id, key).elements[i])
+//@ ensures {C18} old(kIsList(server, conn.id, key)) && count == 1 && old(len(kList(server, conn.id, key).elements)) >= 1 && isLPop ==> bulkReply(result0, old(kList(server, conn.id, key).elements[0]))
+//@ ensures {C18} old(kIsList(server, conn.id, key)) && count == 1 && old(len(kList(server, conn.id, key).elements)) >= 1 && !isLPop ==> bulkReply(result0, old(kList(server, conn.id, key).elements[len(kList(server, conn.id, key).elements) - 1]))
+//@ ensures {C18} old(kIsList(server, conn.id, key)) && count > 1 && old(len(kList(server, conn.id, key).elements)) >= 1 && isLPop ==> listReply(result0, old(kList(server, conn.id, key)), 0, 0) || (result0 != nil && result0.Type == proto.ArrayMessage && result0.array != nil && len(result0.array.msgs) == popN(count, old(len(kList(server, conn.id, key).elements))))
+//@ ensures {C18} old(hasDB(server, conn.id)) ==> forall q iface :: q != iface(key) ==> sm_dom[&recs(server, conn.id).Map][q] == old(sm_dom[&recs(server, conn.id).Map][q]) && sm_val[&recs(server, conn.id).Map][q] == old(sm_val[&recs(server, conn.id).Map][q])
+//@ loop 0
+//@   invariant array != nil && arrayMsg != nil && arrayMsg.array == array && arrayMsg.Type == proto.ArrayMessage && fresh(array) && fresh(arrayMsg) && fresh(array.msgs) && allocated(array.msgs)
+//@   invariant -1 <= rangeindex && rangeindex < len(elems) && len(array.msgs) == rangeindex + 1
+//@   invariant forall j int :: 0 <= j && j <= rangeindex ==> array.msgs[j] != nil && fresh(array.msgs[j]) && array.msgs[j].Type == proto.BulkMessage && array.msgs[j].bytes != nil && string(array.msgs[j].bytes) == elems[j]
+//@   decreases len(elems) - rangeindex
+
+//@ func (*Server).push
+//@ requires {C18} storeOK(server) && conn != nil
+//@ assigns sm_dom[&server.Databases.Map], sm_val[&server.Databases.Map], sm_dom[&recs(server, conn.id).Map], sm_val[&recs(server, conn.id).Map], List.elements, comp:E|Str, alloc
+//@ ensures {C18} storeOK(server)
+//@ ensures {C18} opt.X && !old(kHas(server, conn.id, key)) ==> err == nil && intReply(result0, 0) && !kHas(server, conn.id, key)
+//@ ensures {C18} (!opt.X || old(kHas(server, conn.id, key))) && (!old(kHas(server, conn.id, key)) || old(kIsList(server, conn.id, key))) ==> err == nil && kIsList(server, conn.id, key)
+//@ ensures {C18} old(kIsList(server, conn.id, key)) ==> kList(server, conn.id, key) == old(kList(server, conn.id, key)) && len(kList(server, conn.id, key).elements) == old(len(kList(server, conn.id, key).elements)) + len(elems) && intReply(result0, len(kList(server, conn.id, key).elements))
+//@ ensures {C18} !opt.X && !old(kHas(server, conn.id, key)) ==> len(kList(server, conn.id, key).elements) == len(elems) && intReply(result0, len(elems))
+//@ ensures {C18} old(kIsList(server, conn.id, key)) && !isLPop ==> forall i int :: 0 <= i && i < old(len(kList(server, conn.id, key).elements)) ==> kList(server, conn.id, key).elements[i] == old(kList(server, conn.id, key).elements[i])
+//@ ensures {C18} old(kIsList(server, conn.id, key)) && !isLPop ==> forall i int :: 0 <= i && i < len(elems) ==> kList(server, conn.id, key).elements[old(len(kList(server, conn.id, key).elements)) + i] == old(elems[i])
+//@ ensures {C18} old(kIsList(server, conn.id, key)) && isLPop ==> forall i int :: 0 <= i && i < len(elems) ==> kList(server, conn.id, key).elements[i] == old(elems[len(elems) - 1 - i])
+//@ ensures {C18} old(kIsList(server, conn.id, key)) && isLPop ==> forall i int :: 0 <= i && i < old(len(kList(server, conn.id, key).elements)) ==> kList(server, conn.id, key).elements[len(elems) + i] == old(kList(server, conn.id, key).elements[i])
+//@ ensures {C18} !opt.X && !old(kHas(server, conn.id, key)) && !isLPop ==> forall i int :: 0 <= i && i < len(elems) ==> kList(server, conn.id, key).elements[i] == old(elems[i])
+//@ ensures {C18} !opt.X && !old(kHas(server, conn.id, key)) && isLPop ==> forall i int :: 0 <= i && i < len(elems) ==> kList(server, conn.id, key).elements[i] == old(elems[len(elems) - 1 - i])
+//@ ensures {C18} old(hasDB(server, conn.id)) ==> forall q iface :: q != iface(key) ==> sm_dom[&recs(server, conn.id).Map][q] == old(sm_dom[&recs(server, conn.id).Map][q]) && sm_val[&recs(server, conn.id).Map][q] == old(sm_val[&recs(server, conn.id).Map][q])
+
+//@ func (*Server).LPop
+//@ requires {C18} storeOK(server) && conn != nil
+//@ ensures {C18} storeOK(server)
+
+//@ func (*Server).RPop
+//@ requires {C18} storeOK(server) && conn != nil
+//@ ensures {C18} storeOK(server)
+
+//@ func (*Server).LPush
+//@ requires {C18} storeOK(server) && conn != nil
+//@ ensures {C18} storeOK(server)
+
+//@ func (*Server).RPush
+//@ requires {C18} storeOK(server) && conn != nil
+//@ ensures {C18} storeOK(server)
